@@ -331,3 +331,25 @@ Definition cwstep (barrier : bool) (n : nat) (st : cwstate) (o : cwop) : cwstate
 Definition cwinit (n : nat) : cwstate := mkcw0 0 (repeat [] n) 0 [] [] [] [].
 Definition cwrun (barrier : bool) (n : nat) (ops : list cwop) : cwstate := fold_left (cwstep barrier n) ops (cwinit n).
 Definition cw_replay (st : cwstate) : list nat := replay (total (cw_parts st)) (cw_parts st).
+
+(* ---- asynchronous replay (wal-replay-async): replay steps interleaved with new write requests ---- *)
+(* After a restart the shard accepts writes at once while a goroutine re-applies the log record by record (shard.replayWal /
+   syncReplayWal). one_table = true is today's code: replayed records and new writes go to the same memtable in arrival
+   order. one_table = false is the ordering rule that makes it correct: replayed records go to a table of their own that is
+   read BELOW the table of the new writes (and flushed before it). Ghost: a_new = the writes acknowledged since the restart. *)
+Record astate := mka { a_files : list batch; a_log : list batch; a_done : list batch; a_tbl : list batch;
+                       a_rep : list batch; a_act : list batch; a_new : list batch }.
+Inductive aop := AReplayOne | AWrite (b : batch).
+Definition astep (st : astate) (o : aop) : astate :=
+  match o with
+  | AReplayOne => match a_log st with
+                  | r :: rest => mka (a_files st) rest (a_done st ++ [r]) (a_tbl st ++ [r]) (a_rep st ++ [r]) (a_act st) (a_new st)
+                  | [] => st
+                  end
+  | AWrite b => mka (a_files st) (a_log st) (a_done st) (a_tbl st ++ [b]) (a_rep st) (a_act st ++ [b]) (a_new st ++ [b])
+  end.
+Definition ainit (files log : list batch) : astate := mka files log [] [] [] [] [].
+Definition arun (files log : list batch) (ops : list aop) : astate := fold_left astep ops (ainit files log).
+Definition a_read (one_table : bool) (st : astate) : store :=
+  if one_table then over (lww (a_files st)) (lww (a_tbl st))
+  else over (over (lww (a_files st)) (lww (a_rep st))) (lww (a_act st)).
